@@ -12,6 +12,7 @@
 -/
 import Proofs.C05NV
 import Proofs.C05Midpoint
+import Proofs.C05Obs
 
 namespace Taurex.C05
 open Taurex.Binning List
@@ -306,5 +307,97 @@ example : histMean1 Row.s [(⟨3, 0, 10, 0⟩ : Row ℝ), ⟨5, 0, 20, 0⟩, ⟨
 theorem native_identity {β : Type} (x : β) : nativeBindown x = x := rfl
 
 example : nativeBindown ([1, 2, 3] : List ℝ) = [1, 2, 3] := native_identity _
+
+/-! ### observation route: binners whose target grid comes from the rows of a file
+
+  `BaseSpectrum.create_binner` (observation arrays / text files), `TaurexSpectrum` (instrument section of a TauREx output
+  file) and `InstrumentFile` build the `FluxBinner` that the model is binned with.  "Binning onto an observation grid"
+  is binning onto the bins the rows of that file declare: row `(wl, …, w)` declares the wavenumber bin
+  `rowBin = (10000/wl, 10000·w/wl²)`.  `nvObs`: the rows (2, 20, 2, 1), (4, 40, 4, 2), (1, 10, 1, 1/2), not in
+  descending-wavelength order, unequal widths. -/
+
+open Taurex.Observation Taurex.ObsTargets
+
+/-- three file rows `(wavelength, value, error, width)`, shuffled, widths unequal -/
+noncomputable def nvObs : List (ORow ℝ) := [⟨2, 20, 2, 1⟩, ⟨4, 40, 4, 2⟩, ⟨1, 10, 1, 1 / 2⟩]
+
+/-- **obs_targets_rowwise**: whatever the order of the rows in the file, the binner created from a 4-column observation
+    and the binner of an instrument file hold exactly the bins the rows declare — every centre with the width of ITS OWN
+    row (a permutation of `rows.map rowBin`, nothing dropped, no column mixed) — in ascending wavenumber. -/
+theorem obs_targets_rowwise (rows : List (ORow ℝ)) :
+    routeTargets Route.array4 rows ~ rows.map rowBin ∧ routeTargets Route.instrument rows ~ rows.map rowBin ∧
+    (routeTargets Route.array4 rows).Pairwise (fun t t' => t.c ≤ t'.c) ∧
+    (routeTargets Route.instrument rows).Pairwise (fun t t' => t.c ≤ t'.c) := by
+  rw [array4_targets, instrument_targets]
+  exact ⟨sorted_rowBins_perm rows, sorted_rowBins_perm rows, sortBy_sorted TBin.c _, sortBy_sorted TBin.c _⟩
+
+example : routeTargets Route.array4 nvObs ~ [⟨5000, 2500⟩, ⟨2500, 1250⟩, ⟨10000, 5000⟩] := by
+  have h := (obs_targets_rowwise nvObs).1
+  have e : nvObs.map rowBin = [⟨5000, 2500⟩, ⟨2500, 1250⟩, ⟨10000, 5000⟩] := by
+    norm_num [nvObs, rowBin]
+  rwa [e] at h
+
+/-- **taurex_targets_stored**: the binner created from the instrument section of a TauREx output file holds exactly the
+    stored bins `(instrument_wngrid, instrument_wnwidth)`: the conversion to wavelength rows and back returns the stored
+    wavenumber widths (non-zero wavenumbers). -/
+theorem taurex_targets_stored (rows : List (ORow ℝ)) (h : ∀ r ∈ rows, r.wl ≠ 0) :
+    routeTargets Route.taurex rows ~ rows.map (fun r => ({ c := r.wl, w := r.bw } : TBin ℝ)) := by
+  have h1 : routeTargets Route.taurex rows = routeTargets Route.array4 (rows.map fromTaurex) := rfl
+  rw [h1, array4_targets]
+  refine (sorted_rowBins_perm _).trans ?_
+  rw [List.map_map]
+  exact List.Perm.of_eq (List.map_congr_left (fun r hr => rowBin_fromTaurex r (h r hr)))
+
+/-- stored bins centred at 2500 and 5000 cm⁻¹ with widths 50 and 2000 (a broad photometric channel, R = 2.5) -/
+example : routeTargets Route.taurex [(⟨5000, 1, 1, 2000⟩ : ORow ℝ), ⟨2500, 2, 1, 50⟩] ~ [⟨5000, 2000⟩, ⟨2500, 50⟩] :=
+  taurex_targets_stored _ (by
+    intro r hr
+    simp only [List.mem_cons, List.not_mem_nil, or_false] at hr
+    rcases hr with rfl | rfl <;> norm_num)
+
+/-- **obs_row_order_irrelevant**: two files holding the same rows in different orders (distinct positive wavelengths /
+    wavenumbers) give the same binner, on every route. -/
+theorem obs_row_order_irrelevant (rt : Route) (rows₁ rows₂ : List (ORow ℝ)) (hp : rows₁ ~ rows₂)
+    (hd : (rows₁.map ORow.wl).Nodup) (hpos : ∀ r ∈ rows₁, 0 < r.wl) :
+    routeTargets rt rows₁ = routeTargets rt rows₂ := by
+  cases rt with
+  | array3 => unfold routeTargets load; simp only; rw [sortRowsDesc_eq_of_perm' hp hd]
+  | array4 => rw [array4_targets, array4_targets, sortRowsDesc_eq_of_perm' hp hd]
+  | instrument => rw [instrument_targets, instrument_targets, sortRowsDesc_eq_of_perm' hp hd]
+  | taurex =>
+    have h1 : ∀ rows : List (ORow ℝ), routeTargets Route.taurex rows = routeTargets Route.array4 (rows.map fromTaurex) :=
+      fun _ => rfl
+    rw [h1, h1, array4_targets, array4_targets,
+      sortRowsDesc_eq_of_perm' (hp.map fromTaurex) (taurex_wl_nodup rows₁ hd hpos)]
+
+example : routeTargets Route.array4 nvObs = routeTargets Route.array4 [⟨4, 40, 4, 2⟩, ⟨2, 20, 2, 1⟩, ⟨1, 10, 1, 1 / 2⟩] :=
+  obs_row_order_irrelevant Route.array4 _ _ (List.Perm.swap _ _ _) (by norm_num [nvObs]) (by
+    intro r hr
+    simp only [nvObs, List.mem_cons, List.not_mem_nil, or_false] at hr
+    rcases hr with rfl | rfl | rfl <;> norm_num)
+
+/-- **obs_bin_is_overlap_mean**: every bin of the binner created from an observation (or an instrument file) is the bin
+    declared by one of the file's rows, and the value binned into it is the overlap-weighted mean of the native spectrum over
+    THAT row's bin (ordered native bins, the row's bin overlapping the native grid). -/
+theorem obs_bin_is_overlap_mean (val : Row ℝ → ℝ) (native : List (Row ℝ)) (rows : List (ORow ℝ)) (hne : native ≠ [])
+    (hord : OrderedBins native) (hw : ∀ r ∈ native, r.lo ≤ r.hi) (rt : Route) (hrt : rt = Route.array4 ∨ rt = Route.instrument) :
+    ∀ t ∈ routeTargets rt rows, ∃ r ∈ rows, t = rowBin r ∧
+      ((rowBin r).lo < (rowBin r).hi → 0 < sumL (native.map (overlap (rowBin r).lo (rowBin r).hi)) →
+        fluxBinVal val native t.lo t.hi = overlapMeanSpec val native (rowBin r).lo (rowBin r).hi) := by
+  intro t ht
+  have hperm : routeTargets rt rows ~ rows.map rowBin := by
+    rcases hrt with rfl | rfl
+    · exact (obs_targets_rowwise rows).1
+    · exact (obs_targets_rowwise rows).2.1
+  have hm := hperm.subset ht
+  rw [List.mem_map] at hm
+  obtain ⟨r, hr, rfl⟩ := hm
+  exact ⟨r, hr, rfl, fun hab hpos => flux_eq_spec val native _ _ hne hord hw hab hpos⟩
+
+/-- on `nvRows` (native bins `[0.5,1.5] … [4.5,5.5]`): the observation row `(wl, w) = (2500, 625)` declares the bin
+    `[3.5, 4.5]` (centre 4, width 1), whose binned value is the native value 40 -/
+example : ∃ r ∈ [(⟨2500, 0, 0, 625⟩ : ORow ℝ), ⟨5000, 0, 0, 2500⟩], (⟨4, 1⟩ : TBin ℝ) = rowBin r := by
+  refine ⟨⟨2500, 0, 0, 625⟩, by simp, ?_⟩
+  norm_num [rowBin]
 
 end Taurex.C05
